@@ -23,6 +23,8 @@ From WebP Require Import Lib.IO.
 From WebP Require Spec.Container Model.Container Model.ContainerIO Proofs.ContainerIO_prims Proofs.ContainerIO_refine
   Proofs.ContainerIO_main Proofs.ContainerIO_examples Proofs.ContainerIO_sink Model.Encoder.
 From WebP Require Lib.ZBits Lib.Res Model.BitReader Model.Huffman Proofs.Lossless_BitReader Proofs.Lossless_SymSchedule.
+From WebP Require Lib.Arr Spec.PrefixCode Model.LosslessLib Model.Lossless Proofs.Lossless_HuffmanSafe Proofs.Lossless_PixelSafe Proofs.C04_bits
+  Proofs.C01_stream Proofs.C01_symbols Proofs.C01_codes Proofs.C01_pixlib Proofs.C01_pixels Proofs.C01_groups Proofs.C01_gspec Proofs.C01_final Proofs.C01_top.
 Import ListNotations.
 
 Theorem read_exact_any_schedule : forall s1 s2 r want, want <= length (remaining r) ->
@@ -165,3 +167,33 @@ Module CIO.
       /\ exists j, Lib.IO.wout (snd faulty) = firstn j (Model.Encoder.sink_bytes s).
   Proof. exact ContainerIO_sink.encoder_sink_fault. Qed.
 End CIO.
+
+(* ---------------- the whole lossless decoder under fill_buf schedules ---------------- *)
+(* the model of decode_image_stream / decode_frame (every call site's fill() discipline included) gives the same verdict, the same
+   pixels and the same final stream position for any two schedules of the bytes exposed by successive fill_buf calls *)
+Module RC.
+  Import Lib.Res Lib.Arr Lib.ZBits Spec.PrefixCode Model.LosslessLib Model.BitReader Model.Huffman Model.Lossless
+    Proofs.Lossless_BitReader Proofs.Lossless_HuffmanSafe Proofs.Lossless_PixelSafe Proofs.C04_bits
+    Proofs.C01_stream Proofs.C01_symbols Proofs.C01_codes Proofs.C01_pixlib Proofs.C01_pixels Proofs.C01_groups
+    Proofs.C01_gspec Proofs.C01_final Proofs.C01_top.
+  Local Open Scope Z_scope.
+  Theorem entropy_decoder_schedule_independent : forall d sched1 sched2 xs ys (argb : bool) data,
+    Forall byte d -> 1 <= xs <= 16384 -> 1 <= ys <= 16384 -> zlen data = 4 * (xs * ys) ->
+    match decode_image_stream STREAM_LEVELS (BitReader.init d sched1) xs ys argb data,
+          decode_image_stream STREAM_LEVELS (BitReader.init d sched2) xs ys argb data with
+    | Ok (r1, b1), Ok (r2, b2) => zlen b1 = zlen b2 /\ (forall k, 0 <= k < zlen b1 -> az b1 k = az b2 k) /\
+                                  exists s', Rel s' r1 /\ Rel s' r2
+    | Err _, Err _ => True
+    | _, _ => False
+    end.
+  Proof. exact decode_image_stream_schedule_independent. Qed.
+
+  Theorem frame_schedule_independent : forall data sched1 sched2 W h buf, Forall byte data -> Z.of_nat (length buf) = 4 * (W * h) ->
+    (forall s0, V.read_header (V.Stream [] data) = Some (W, h, s0) -> in_format W h s0) ->
+    match decode_frame data sched1 W h false buf, decode_frame data sched2 W h false buf with
+    | Ok p1, Ok p2 => p1 = p2
+    | Err _, Err _ => True
+    | _, _ => False
+    end.
+  Proof. exact decode_frame_schedule_independent. Qed.
+End RC.
